@@ -36,7 +36,7 @@ def known_names():
         here = os.path.dirname(os.path.abspath(__file__))
         words = set()
         for p in glob.glob(os.path.join(here, "*.py")) + glob.glob(os.path.join(here, "rules", "*.py")):
-            if os.path.basename(p) == "inline.py":
+            if os.path.basename(p) in ("inline.py", "combinators.py"):
                 continue
             words |= _code_words(p)
         _KNOWN = words
@@ -157,10 +157,71 @@ def _fold_constant_switches(raw):
         b["t"] = {"k": "goto", "t": listed.get(val, t["otherwise"])}
 
 
-def view(prog, f, keep=None, depth=2, max_blocks=40, _stack=None, allow_pub=False):
+CALLS_CLOSURE = ("core::ops::function::FnOnce::call_once", "core::ops::function::FnMut::call_mut", "core::ops::function::Fn::call")
+
+
+def _splice_closure_calls(prog, f, max_blocks):
+    """`with_state(|st| st.flag = true)`: once the closure-taking helper is spliced in, its `f(arg)` is a call of a
+    closure whose body is known (the aggregate built in the caller).  That body is spliced too: parameter 1 is the
+    closure (a reference to it when the body takes its environment by reference), the others are the members of the
+    argument tuple."""
+    from . import flow
+    raw = None
+    spliced = []
+    for c in f.calls():
+        if c.name not in CALLS_CLOSURE or len(c.args) != 2 or c.dest is None or "t" not in c.raw:
+            continue
+        aggs = flow.origins(f, c.args[0])
+        if len(aggs) != 1 or aggs[0].kind != "agg" or not aggs[0].rv.get("closure") or aggs[0].proj:
+            continue
+        g = prog.fns.get(aggs[0].rv["closure"])
+        tup = flow.origins(f, c.args[1])
+        if g is None or g.crate != f.crate or g.nblocks > max_blocks or len(tup) != 1 or tup[0].kind != "agg" \
+                or tup[0].rv.get("agg") != "tuple" or len(tup[0].rv["ops"]) != g.argc - 1:
+            continue
+        if raw is None:
+            raw = copy.deepcopy(f.raw)
+        base = len(raw["locals"])
+        boff = len(raw["blocks"])
+        raw["locals"] = raw["locals"] + copy.deepcopy(g.locals)
+        blk = raw["blocks"][c.bb]
+        call_t = blk["t"]
+        dest, target = call_t["dest"], call_t["t"]
+        env = call_t["args"][0]
+        envp = env.get("mv") or env.get("cp")
+        by_ref = g.locals[1].get("s", "").lstrip().startswith("&") and envp is not None
+        blk["s"].append({"k": "assign", "place": {"l": base + 1}, "loc": blk["tl"], "inlined_arg": g.path,
+                         "rv": {"k": "ref", "mut": True, "place": copy.deepcopy(envp)} if by_ref else {"k": "use", "op": env}})
+        for i, a in enumerate(tup[0].rv["ops"]):
+            blk["s"].append({"k": "assign", "place": {"l": base + 2 + i}, "rv": {"k": "use", "op": copy.deepcopy(a)},
+                             "loc": blk["tl"], "inlined_arg": g.path})
+        blk["t"] = {"k": "goto", "t": boff}
+        for gb in g.blocks:
+            nb = copy.deepcopy(gb)
+            _shift(nb["s"], base, boff)
+            t = nb["t"]
+            if t["k"] == "return":
+                nb["s"].append({"k": "assign", "place": copy.deepcopy(dest), "rv": {"k": "use", "op": {"mv": {"l": base}}},
+                                "loc": nb["tl"], "inlined_ret": g.path})
+                nb["t"] = {"k": "goto", "t": target}
+            else:
+                _shift(t, base, boff)
+                _retarget(t, boff)
+            raw["blocks"].append(nb)
+        spliced.append(g.path)
+    if raw is None:
+        return f
+    res = Fn(prog, raw, f.crate)
+    res.key = getattr(f, "key", f.path)
+    res.inlined = list(getattr(f, "inlined", [])) + spliced
+    res.origin = getattr(f, "origin", f)
+    return res
+
+
+def view(prog, f, keep=None, depth=2, max_blocks=40, _stack=None, allow_pub=False, closures=False):
     """f with its eligible callees inlined (a new Fn; f itself is returned when nothing was inlined)"""
     cache = prog.__dict__.setdefault("_inline_cache", {})
-    key = (f.key if hasattr(f, "key") else f.path, None if keep is None else (id(keep) if callable(keep) else tuple(sorted(keep))), depth, max_blocks, allow_pub)
+    key = (f.key if hasattr(f, "key") else f.path, None if keep is None else (id(keep) if callable(keep) else tuple(sorted(keep))), depth, max_blocks, allow_pub, closures)
     if _stack is None and key in cache:
         return cache[key]
     stack = (_stack or ()) + (f.path,)
@@ -213,6 +274,8 @@ def view(prog, f, keep=None, depth=2, max_blocks=40, _stack=None, allow_pub=Fals
         res.inlined = inlined + [p for p in getattr(f, "inlined", [])]
         res.origin = f
     if _stack is None:
+        if closures:
+            res = _splice_closure_calls(prog, res, max_blocks)
         cache[key] = res
     return res
 
@@ -227,7 +290,7 @@ class Overlay:
     functions call (and whose bodies the views contain) are taken out: rules that enumerate `prog.fns` then see a write
     or a call that a maintainer moved into a private helper as part of the function it was moved out of."""
 
-    def __init__(self, prog, anchors, keep=None, depth=2, max_blocks=60, allow_pub=False):
+    def __init__(self, prog, anchors, keep=None, depth=2, max_blocks=60, allow_pub=False, closures=False):
         self._p = prog
         self.fns = dict(prog.fns)
         views = {}
@@ -235,7 +298,7 @@ class Overlay:
             f = prog.fns.get(a)
             if f is None:
                 continue
-            v = view(prog, f, keep=keep, depth=depth, max_blocks=max_blocks, allow_pub=allow_pub)
+            v = view(prog, f, keep=keep, depth=depth, max_blocks=max_blocks, allow_pub=allow_pub, closures=closures)
             views[a] = v
             self.fns[a] = v
         self.views = views
